@@ -393,6 +393,7 @@ pub fn run(tier: Tier) -> i32 {
     // the operand reaches the instruction through symbols: a constant, a variable, and a constant
     // defined over a variable that had a legal value at an earlier use of the same line
     let n_via_symbols = AtomicU64::new(0);
+    let char_done: std::sync::Mutex<std::collections::BTreeSet<(&'static str, usize)>> = std::sync::Mutex::new(Default::default());
     full.par_iter().filter(|c| c.cat == "numeric" && !c.uses_alias).for_each(|c| {
         let ops = &c.ic.ops;
         let p = c.pos;
@@ -437,6 +438,22 @@ pub fn run(tier: Tier) -> i32 {
             ("negation-spelling", format!("{}\n", with(&{ let m = -(k as i128); if m >= 0 { format!("-{}", m) } else { format!("-(-{})", -m) } }))),
             ("parenthesised-sum-spelling", format!("{}\n", with(&format!("({} + 1 - 1)", if k < 0 { format!("(0{})", kt) } else { kt.clone() })))),
         ];
+        // the value written as a character literal (code points of 256 and more are numbers like
+        // any other: they do not fit a byte-wide field, whatever their low byte is), once per
+        // mnemonic and operand position
+        let mut programs: Vec<(&str, String)> = programs.into_iter().collect();
+        if char_done.lock().unwrap().insert((c.ic.mnem, p)) {
+            for cp in [0x100 + legal as u32, 0x2000 + legal as u32, 0x1f600 + (legal as u32 & 0x3f), 0x100, 0x20ac, 0x150, 0xff00 + legal as u32] {
+                let mut o2 = ops.clone();
+                o2[p] = Opnd::Imm(cp as i64);
+                if isa::encode(Core::Full, c.ic.mnem, &o2).is_some() {
+                    continue;
+                }
+                if let Some(ch) = char::from_u32(cp) {
+                    programs.push(("character-literal-spelling", format!("{}\n", with(&format!("'{}'", ch)))));
+                }
+            }
+        }
         for (how, src) in programs.iter() {
             let o = sut::build_str(src);
             cx.evals.fetch_add(1, Ordering::Relaxed);
@@ -450,6 +467,62 @@ pub fn run(tier: Tier) -> i32 {
             }
         }
     });
+    // relative targets written from a position that a symbol captured: a label, a variable set
+    // from `pc` right behind an instruction, behind data, behind a two-word instruction, behind
+    // other lines that place nothing. The last displacements inside the field must encode like
+    // `pc+k`, the first ones outside must be refused.
+    let n_captured_pc = AtomicU64::new(0);
+    {
+        let mut rel: Vec<(&'static str, Vec<Opnd>)> = vec![];
+        for c in icase::small_cases_full().iter() {
+            if icase::is_relative(c.mnem) && !c.ops.is_empty() && !rel.iter().any(|(m, o)| *m == c.mnem && o.len() == c.ops.len() && o[..o.len() - 1] == c.ops[..c.ops.len() - 1]) {
+                rel.push((c.mnem, c.ops.clone()));
+            }
+        }
+        let captures: [(&str, &str, i64); 8] = [
+            ("label", "nop\nbase_q:\n", 1),
+            ("set-behind-instruction", "nop\n.set base_q = pc\n", 1),
+            ("set-behind-two-word-instruction", "jmp 0x100\n.set base_q = pc\n", 2),
+            ("set-behind-data", ".db 1, 2, 3\n.set base_q = pc\n", 2),
+            ("set-behind-other-lines-that-place-nothing", "nop\n.equ other_q = 5\n.def alias_cq = r20\n.set base_q = pc\n", 1),
+            ("set-at-the-start", ".set base_q = pc\n", 0),
+            ("set-behind-org", "nop\n.org 0xa00\n.set base_q = pc\n", 0xa00),
+            ("set-twice", ".set base_q = pc\nnop\nnop\n.set base_q = pc\n", 2),
+        ];
+        rel.par_iter().for_each(|(mnem, ops)| {
+            let wide = *mnem == "rjmp" || *mnem == "rcall";
+            let (lo, hi) = if wide { (-2048i64, 2047i64) } else { (-64i64, 63i64) };
+            for (how, pre, addr) in captures.iter() {
+                for d in [lo - 2, lo - 1, lo, lo + 1, -1, 0, 1, hi - 1, hi, hi + 1, hi + 2] {
+                    // target = address of the instruction + 1 + d; the front part of the program is
+                    // moved up so that backward targets exist
+                    let shift = 0x900i64;
+                    let target = format!("base_q + {}", 1 + d);
+                    let mut parts: Vec<String> = ops[..ops.len() - 1].iter().map(|o| o.text()).collect();
+                    parts.push(target);
+                    let src = format!(".org {}\n{}{} {}\n", shift, pre, mnem, parts.join(", "));
+                    let _ = addr;
+                    let o = sut::build_str(&src);
+                    cx.evals.fetch_add(1, Ordering::Relaxed);
+                    n_captured_pc.fetch_add(1, Ordering::Relaxed);
+                    let mut o2 = ops.clone();
+                    let n = o2.len();
+                    o2[n - 1] = Opnd::Imm(d);
+                    let want = isa::encode(Core::Full, mnem, &o2).map(|w| isa::words_to_bytes(&w));
+                    let bad = match (&want, &o) {
+                        (None, Outcome::Ok(b)) => Some(("accepted-from-a-captured-position", format!("displacement {} does not fit, but the program assembles to …{}", d, sut::hex(&b.code[b.code.len().saturating_sub(4)..])))),
+                        (Some(w), Outcome::Ok(b)) if !b.code.ends_with(w) => Some(("wrong-encoding-from-a-captured-position", format!("displacement {} must encode to {} but the image ends in {}", d, sut::hex(w), sut::hex(&b.code[b.code.len().saturating_sub(4)..])))),
+                        (Some(_), Outcome::Err(e)) => Some(("rejected-from-a-captured-position", format!("displacement {} fits but the program is refused: {}", d, e))),
+                        (_, Outcome::Panic { site, msg }) => Some(("panic", format!("panic at {}: {}", site, msg))),
+                        _ => None,
+                    };
+                    if let Some((kind, what)) = bad {
+                        cx.rep.violation(&format!("C04/{}/mnem={}/how={}", kind, mnem, how), || format!("`{} {}` behind `{}`: {}", mnem, parts.join(", "), pre.trim().replace('\n', " / "), what), || json!({"kind": "build_str", "source": src, "observed": o.to_json()}));
+                    }
+                }
+            }
+        });
+    }
     // the rejected line is not the last thing in the program: other segments follow it
     let n_followed = AtomicU64::new(0);
     full.par_iter().filter(|c| !c.uses_alias).for_each(|c| {
@@ -508,6 +581,7 @@ pub fn run(tier: Tier) -> i32 {
         "mnemonics": mnems.len(),
         "outcomes": {"ok": cx.ok_seen.load(Ordering::Relaxed), "err": cx.err_seen.load(Ordering::Relaxed), "panic_left_to_C16": cx.panic_seen.load(Ordering::Relaxed)},
         "must_reject_values_through_symbols_programs": n_via_symbols.load(Ordering::Relaxed),
+        "relative_targets_from_a_captured_position_programs": n_captured_pc.load(Ordering::Relaxed),
         "must_reject_lines_followed_by_another_segment": n_followed.load(Ordering::Relaxed),
         "lenient_sibling_form_accepted": cx.lenient_used.load(Ordering::Relaxed),
         "caps_hit": [],
